@@ -49,7 +49,7 @@ class C18(Prop):
             lay = rng.choice(zoo(shape, rng, 3))
             mode = ("P", rng.below(3))
             one_d = nd == 1 and rng.chance(1, 2)
-            b = mk_q_case("quantiles1" if one_d else "quantiles", et, strat, shape, axis, vals, qs, lay, mode)
+            b = mk_q_case("quantiles1" if one_d else "quantiles", et, strat, shape, axis, vals, qs, lay, mode, il=g % 4)
             b.grp, b.role, b.kind = "q%d" % g, "bulk", "q"
             yield b
             for j, q in enumerate(qs[:6]):
